@@ -59,10 +59,36 @@ class Session:
         try:
             s.add(neg)
             t0 = time.time()
+            # portfolio: quick plain z3, then z3 on the non-linear abstraction (lemma-instance
+            # style proofs), then plain z3 with the full budget, then nlsat on the
+            # Ackermannised problem, then cvc5
+            quick = min(1500, self.timeout_ms)
+            s.set("timeout", quick)
             r = s.check()
+            s.set("timeout", self.timeout_ms)
             self.stats["z3"] += 1
             self.stats["z3_time"] += time.time() - t0
             backend = "z3"
+            if r == z3.unknown:
+                from .purify import second_chance, third_chance
+                t1 = time.time()
+                if third_chance(s.assertions(), self.timeout_ms) == "unsat":
+                    self.stats["uf_abstraction"] = self.stats.get("uf_abstraction", 0) + 1
+                    self.stats["z3_time"] += time.time() - t1
+                    return "discharged", None, "z3(nonlinear terms abstracted)", None
+                t1 = time.time()
+                r = s.check()
+                self.stats["z3_time"] += time.time() - t1
+            if r == z3.unknown and os.environ.get("PYVC_DUMP"):
+                fn = os.path.join(os.environ["PYVC_DUMP"], name.replace("/", "_") + ".smt2")
+                with open(fn, "w") as f:
+                    f.write(s.to_smt2())
+            if r == z3.unknown:
+                t1 = time.time()
+                if second_chance(s.assertions(), self.timeout_ms) == "unsat":
+                    self.stats["nlsat_purified"] = self.stats.get("nlsat_purified", 0) + 1
+                    self.stats["z3_time"] += time.time() - t1
+                    return "discharged", None, "z3-nlsat(ackermannized)", None
             if r == z3.unknown and self.use_cvc5:
                 c = self._cvc5(s, None)
                 backend = "cvc5"
